@@ -633,6 +633,9 @@ class Exec:
             return self.lib.map_store(self, st, cont, idx, val, node)
         if isinstance(cont, ty.MatV):
             return self.lib.mat_store(self, st, cont, idx, val, node)
+        from . import pdlib
+        if isinstance(cont, pdlib.FrameV):
+            return pdlib.frame_setitem(self, st, cont, idx, val, node)
         raise Unsupported(f"item assignment on {cont!r}", node)
 
     @staticmethod
@@ -942,6 +945,7 @@ class Exec:
         res = []
         if kind == "for":
             st.assign(kname, 0)
+            st.ghost["_iter"] = iter_seq        # the sequence being iterated (often an anonymous expression): visible to invariants as s._iter
         if spec.ghost is not None:
             st.ghost.update(spec.ghost(self.view(st)))
         for ln, lt_ in spec.locals.items():
@@ -963,6 +967,10 @@ class Exec:
                 continue
             t = ty.type_of(self.to_storable(cur))
             if t is None:
+                from . import pdlib
+                if isinstance(cur, pdlib.FrameV):
+                    h.assign(n, pdlib.fresh_frame(n))
+                    continue
                 raise Unsupported(f"cannot havoc loop-modified local {n}={cur!r}", s)
             h.assign(n, ty.fresh(t, n))
         self.havoc_loop_heap(h, spec.modifies)
@@ -1172,6 +1180,14 @@ class Exec:
         res = []
         n = len(e.keys)
         for vals, s in acc:
+            if any(ty.is_z3(k) for k in vals[:n]):
+                # a dict literal with symbolic (identifier) keys: built as an ordered map by successive item assignment
+                vt = ty.type_of(self.to_storable(vals[n]))
+                m = self.coerce(ty.Map(ty.Id, vt if vt is not ty.Int else ty.Real, ordered=True), PyDict({}), e)
+                for k, v in zip(vals[:n], vals[n:]):
+                    m = self.lib.map_store(self, s, m, k, v, e)
+                res.append(Out("val", m, s))
+                continue
             res.append(Out("val", PyDict({self.dict_key(k, e): v for k, v in zip(vals[:n], vals[n:])}), s))
         return res + raises
 
@@ -1298,6 +1314,11 @@ class Exec:
                 m = self.ix.lookup_method(b, attr)
                 if m is not None:
                     return [Out("val", FuncV(fi=m, self_obj=obj.obj), st)]
+            if self.ix.is_subclass(obj.cls, "Current") or obj.cls == "Current":
+                from . import pdlib
+                r = pdlib.super_attr(self, st, obj.obj, attr, node)
+                if r is not None:
+                    return r
             raise Unsupported(f"super().{attr}", node)
         if isinstance(obj, ClassV):
             m = self.ix.lookup_method(obj.name, attr)
